@@ -472,9 +472,7 @@ def shram_check(it, acc):
     else:
         if it.ib_end - 2 < ifm_banks:
             out.append(f"IFM buffer [2,{it.ib_end}) smaller than the double-buffered IFM block ({ifm_banks} banks)")
-        name, acc_bits, gidx = HW.ACC_FORMAT.get(it.acc_format, ("?", 32, HW.GR_ACC32))
-        acc_bytes = it.bh * it.bw * apigen.round_up(it.bc, 8) * acc_bits // 8
-        acc_banks = apigen.round_up(-(-acc_bytes // 1024) * 2, hw["gran"][gidx])
+        acc_banks = HW.acc_banks(it, acc)
         if it.ab_start + acc_banks > usable:
             out.append(f"accumulators [{it.ab_start},{it.ab_start + acc_banks}) beyond the usable banks ({usable})")
     return out
